@@ -62,7 +62,7 @@ def validate(items: list[dict], workers: int) -> dict[str, Any]:
     wall = 0.0
     tmp = tempfile.mkdtemp(prefix="c18tr_")
     try:
-        chunk = 1500
+        chunk = 2500
         for base in range(0, len(items), chunk):
             part = items[base: base + chunk]
             f = os.path.join(tmp, f"b{base}.json")
@@ -277,6 +277,73 @@ def onefrag_sweep() -> list[dict]:
     return out
 
 
+# How long "more than the freshness window" is: the model's AgeCache says nothing about the amount, the code
+# computes with time stamps.  Every ageing of a scenario is executed with an elapsed time out of this sweep: just past
+# the window, and around the periods at which representations of elapsed time wrap (hour, day, week) - one second
+# either side of the period, a minute past it, and either side of period + window - and two days and a minute.
+_W = int(X.WINDOW)
+AGES = sorted({_W + 1, X.AGE_DEFAULT}
+              | {p + o for p in (3600, 86400, 7 * 86400) for o in (-1, 1, 60, _W - 1, _W + 1)} | {2 * 86400 + 60})
+WAITS = (1, 60, _W - 2)  # less than the window: no model event, the cached counter may still be gone by
+
+
+def spread_ages(scens: list[tuple[str, dict]], start: int = 0) -> int:
+    """Give every ageing that names no duration one out of AGES (round-robin over the whole list, in place)."""
+    i = start
+    for _, sc in scens:
+        if any(e[0] == "age" and not e[1] for e in sc["h"]):
+            h = []
+            for e in sc["h"]:
+                e = list(e)
+                if e[0] == "age" and not e[1]:
+                    e[1] = AGES[i % len(AGES)]
+                    i += 1
+                h.append(e)
+            sc["h"] = h
+    return i - start
+
+
+def with_every_age(sc: dict) -> list[dict]:
+    """One copy of the scenario per elapsed time of the sweep (all its ageings take that long)."""
+    return [dict(sc, h=[[e[0], d] + list(e[2:]) if e[0] == "age" else list(e) for e in sc["h"]]) for d in AGES]
+
+
+def age_sweep() -> list[dict]:
+    """Code-side sweep of the freshness window of the cached change counter: the counter is read (by a fetch of the
+    zone itself, by a fetch of another zone, overheard, or at the end of a write), the zone's schedule is - or is not -
+    edited on the controller, a stretch of time passes with no RP|0006 on the air (every elapsed time of AGES; and less
+    than the window: WAITS), then the zone is fetched again, unforced or forced; once more after another such stretch
+    (the daily back-up); follow-ups on every zone."""
+    out = []
+    for z, other in ((1, 2), (2, 1)):
+        srcs = {
+            "own": [["start", 1, z, 0, 0, 0, -1]],
+            "other": [["start", 1, z, 0, 0, 0, -1], ["start", 2, other, 0, 0, 1, -1]],
+            "heard6": [["start", 1, z, 0, 0, 0, -1], ["heard6", 0, 0, 0, 0, 1, -1]],
+            "set": [["start", 1, z, 0, 0, 0, -1], ["start", 2, z, 1, 0, 1, -1]],
+        }
+        fus = [["fu", z, 0, 0, 0, 0, -1], ["fu", other, 0, 0, 0, 0, -1]]
+        for src, pre in srcs.items():
+            last = max(e[1] for e in pre if e[0] == "start")
+            for kind, amounts in (("age", AGES), ("wait", WAITS)):
+                for d in amounts:
+                    for edit, force, again in ((1, 0, 0), (0, 0, 0), (1, 1, 0), (1, 0, 1)):
+                        if (src != "own" or z != 1) and (edit, force, again) != (1, 0, 0):
+                            continue  # the variants: for the zone's own reading, on the first zone
+                        if src != "own" and z != 1:
+                            continue
+                        h = pre + ([["bump", z, 0, 0, 0, last, -1]] if edit else []) + \
+                            [[kind, d, 0, 0, 0, last, -1], ["start", last + 1, z, 0, force, last, -1]]
+                        if again:
+                            h += [[kind, d, 0, 0, 0, last + 1, -1], ["start", last + 2, z, 0, 0, last + 1, -1]]
+                        out.append({"zones": [1, 2], "h": [list(e) for e in h + fus]})
+        # two stretches, each shorter than the window, together longer
+        h = srcs["own"] + [["bump", z, 0, 0, 0, 1, -1], ["wait", _W - 60, 0, 0, 0, 1, -1], ["wait", _W - 60, 0, 0, 0, 1, -1],
+                           ["start", 2, z, 0, 0, 1, -1]]
+        out.append({"zones": [1, 2], "h": [list(e) for e in h + fus]})
+    return out
+
+
 def _exec(sc: dict) -> tuple[dict, int, int, int]:
     fakes.quiet_logging()
     rr = X.run_scenario(sc)
@@ -359,7 +426,23 @@ def main(tier: str, replay: str | None) -> None:
     # the overheard - by then old - schedule; the repaired one (fix.stale) does not
     run_mc("MC_SchedXfer_heard.cfg", ["ResultAsOfRead"])
     run_mc("MC_SchedXfer_heard_fix.cfg")
+    # the freshness window of the cached change counter: a gateway whose counter never expires must be refuted (the
+    # clause has teeth); its counter-example is executed below with every elapsed time of AGES - on the real code, which
+    # does let the counter expire, none of them may fail
+    r = tlc.run_tlc("MC_SchedXfer", "MC_SchedXfer_ageignored.cfg", workers=workers, timeout=600, deadlock=False)
+    if r.errors:
+        raise tlc.MachineryFailure(f"TLC error on MC_SchedXfer_ageignored.cfg: {r.errors[:3]}\n{r.out[-2000:]}")
+    mc["MC_SchedXfer_ageignored.cfg"] = {"violated": r.violated, "distinct": r.distinct, "wall_s": round(r.wall_s, 1),
+                                         "note": "teeth: a cached counter that never expires refutes ResultAsOfRead"}
+    if r.violated != ["ResultAsOfRead"]:
+        raise tlc.MachineryFailure(f"MC_SchedXfer_ageignored.cfg: expected ResultAsOfRead to be refuted, got {r.violated}")
+    teeth = scen_of_trace(r.error_trace, [1, 2])
+    if teeth is None or not any(e[0] == "age" for e in teeth["h"]):
+        raise tlc.MachineryFailure("MC_SchedXfer_ageignored.cfg: counter-example without an ageing")
+    states += r.distinct
+    trans += r.states
     if not quick:
+        run_mc("MC_SchedXfer_age.cfg")  # three transfers, an edit, an ageing, an overheard RP|0006
         run_mc("MC_SchedXfer_live.cfg")  # every transfer ends (fairness), as-is and repaired
         run_mc("MC_SchedXfer_live_fix.cfg")
         run_mc("MC_SchedXfer_z3.cfg", zones=[1, 2, 3])
@@ -400,11 +483,37 @@ def main(tier: str, replay: str | None) -> None:
         rnd.shuffle(enum)
         enum = enum[:cap]
     scen += [("enumerate", s) for s in enum]
+    # the same for an instance with one ageing of the cached counter and one edit (no faults); the clauses are checked
+    # on it in the same run
+    r = tlc.run_tlc("MC_SchedXfer", "MC_SchedXfer_scen_age.cfg", workers=workers, timeout=900, deadlock=False,
+                    parse_prints=False)
+    if r.errors or (not r.ok and not r.violated):
+        raise tlc.MachineryFailure(f"scenario enumeration (ageing) failed: rc={r.rc} {r.errors[:3]}\n{r.out[-2000:]}")
+    if r.violated:  # a clause of the as-is model failed: a candidate, replayed on the code like any other
+        sc = scen_of_trace(r.error_trace, [1, 2])
+        if sc:
+            cand.append((f"MC_SchedXfer_scen_age.cfg:{','.join(r.violated)}", sc))
+            scen.append(cand[-1])
+        chk.note(f"TLC: MC_SchedXfer_scen_age.cfg refuted {r.violated} (expected none); counter-example replayed on the code")
+    mc["MC_SchedXfer_scen_age.cfg"] = {"states": r.states, "distinct": r.distinct, "depth": r.depth, "violated": r.violated,
+                                       "wall_s": round(r.wall_s, 1), "completed": r.completed}
+    enum_age = [s for s in scenarios_from_output(r.out, [1, 2]) if any(e[0] == "age" for e in s["h"])]
+    n_enum_age_total = len(enum_age)
+    states += r.distinct
+    trans += r.states
+    cap = 150 if quick else 6000
+    if len(enum_age) > cap:
+        rnd.shuffle(enum_age)
+        enum_age = enum_age[:cap]
+    scen += [("enumerate-age", s) for s in enum_age]
     scen += [("bump-sweep", s) for s in bump_sweep()]
     scen += [("concurrent-sweep", s) for s in concurrent_sweep()]
     scen += [("retry-sweep", s) for s in retry_sweep()]
     scen += [("onefrag-sweep", s) for s in onefrag_sweep()]
     scen += [("overheard-sweep", s) for s in overheard_sweep()]
+    n_aged = spread_ages(scen)  # every ageing so far gets an elapsed time out of AGES
+    scen += [("age-sweep", s) for s in age_sweep()]
+    scen += [("MC_SchedXfer_ageignored.cfg:ResultAsOfRead", s) for s in with_every_age(teeth)]
     # transparent-fault variants (slow / duplicated replies) of a sample
     base = [s for _, s in scen]
     for s in rnd.sample(base, min(len(base), 120 if quick else 2000)):
@@ -519,6 +628,9 @@ def main(tier: str, replay: str | None) -> None:
             "tlc_runs": mc,
             "scenarios": {"counterexamples": len(cand), "simulated_2_zones": len(sim2), "simulated_3_zones": len(sim3),
                           "enumerated_total": n_enum_total, "enumerated_run": len(enum),
+                          "enumerated_with_ageing_total": n_enum_age_total, "enumerated_with_ageing_run": len(enum_age),
+                          "age_sweep": sum(1 for o, _ in runs if o == "age-sweep"),
+                          "elapsed_times_s": AGES, "ageings_given_an_elapsed_time": n_aged,
                           "transparent_variants": sum(1 for o, _ in runs if o == "transparent")},
             "events_recorded": n_events,
             "assumption_ZlibDetects_on_the_real_decoder": {"stitched_sets": n_st, **st_hist},
